@@ -76,7 +76,8 @@ def check_nfa_to_dfa_answer(N: NFA, answer: NFA):
 
         q1_states_expected = set([])
         for q_ in q_states:
-            q1_states_expected |= N.delta[q_, a]
+            # N.delta may be a defaultdict: do not add entries for states of the answer that N does not have
+            q1_states_expected |= N.delta.get((q_, a), set([]))
         q1_states_expected = epsilon_closure(N, q1_states_expected)
 
         if q1_states != q1_states_expected:
